@@ -89,9 +89,16 @@ def run(ctx, replay=None):
     n_exh = ctx.pick(3, 4)
     cases = []
     for k in range(1, n_exh + 1):
-        for ix in itertools.product(range(len(alpha)), repeat=k):
+        tuples = itertools.product(range(len(alpha)), repeat=k)
+        if len(alpha) ** k > 70000:       # the longest length of the thorough tier: a 70 000-list sample (memory)
+            allt = list(tuples)
+            tuples = rnd.sample(allt, 70000)
+            n_exh = k - 1
+            ctx.notes['sampled_lists_of_length_%d' % k] = 70000
+        for ix in tuples:
             cases.append(make_case([alpha[i] for i in ix]))
-    exhaustive_count = len(cases)
+        if n_exh >= k:
+            exhaustive_count = len(cases)
     for k, cnt in ctx.pick(((4, 1500), (5, 800), (6, 500)), ((5, 40000), (6, 40000))):
         for _ in range(cnt):
             cases.append(make_case([alpha[rnd.randrange(len(alpha))] for _ in range(k)]))
